@@ -101,6 +101,17 @@ class ModbusTlsFramer(ModbusFramer):
             return dict(fcode=fcode)
         return dict()
 
+    def _validate_unit_id(self, units, single):
+        """
+        Modbus/TCP Security frames carry no unit id, so there is nothing
+        to validate against (the base implementation would look for a
+        'uid' this framer never has)
+        :param units: list of unit id for which the transaction is valid
+        :param single: Set to true to treat this as a single context
+        :return: True
+        """
+        return True
+
     def processIncomingPacket(self, data, callback, unit, **kwargs):
         """
         The new packet processing pattern
